@@ -4,6 +4,12 @@ package portforwarding
 // readPacket returns a value or an error without panicking, gives up at
 // end-of-stream, and allocates memory in proportion to the bytes received
 // (<= 256 KiB + 16 x input length).
+//
+// Every input is handed to the decoder twice: in one piece, and delivered
+// according to a generated pattern (wire.Delivery: one byte at a time, drawn
+// chunk sizes, (0, nil) results, end-of-stream reported with the last bytes);
+// the same oracles hold under every delivery. Enumerations derive the pattern
+// from the input bytes (wire.DeliveryFor).
 
 import (
 	"testing"
@@ -20,6 +26,7 @@ type c11dPF struct {
 	Addr string     `json:"addr"`
 	Seed uint64     `json:"seed"`
 	Muts []wire.Mut `json:"muts"`
+	Dlv  wire.Delivery `json:"dlv"` // second delivery of the same bytes
 }
 
 var c11dPFFields = []wire.Field{{Off: 0, Width: 1}, {Off: 1, Width: 1}, {Off: 2, Width: 2}, {Off: 2, Width: 2}}
@@ -60,7 +67,7 @@ func c11dPFRun(c c11dPF, v *vlib.Verdict) {
 	v.Label(shape)
 	v.NonTrivial = shape != "consistent"
 	var err error
-	wire.DecoderCall(v, "portforwarding.readPacket", in, func(st *wire.Stream) { _, _, err = readPacket(st) })
+	wire.DecoderCallBoth(v, "portforwarding.readPacket", in, c.Dlv, func(st *wire.Stream) { _, _, err = readPacket(st) })
 	if v.OK() {
 		v.Label(map[bool]string{true: "returned-value", false: "returned-error"}[err == nil])
 	}
@@ -68,7 +75,7 @@ func c11dPFRun(c c11dPF, v *vlib.Verdict) {
 
 func TestVerifC11DecReadPacket(t *testing.T) {
 	vlib.Drive(t, vlib.Spec[c11dPF]{ID: "C11", Quick: 12000, Run: c11dPFRun, Gen: func(t *rapid.T) c11dPF {
-		c := c11dPF{Raw: -1, Seed: rapid.Uint64().Draw(t, "seed"), Fwd: rapid.IntRange(0, 255).Draw(t, "fwd")}
+		c := c11dPF{Raw: -1, Seed: rapid.Uint64().Draw(t, "seed"), Fwd: rapid.IntRange(0, 255).Draw(t, "fwd"), Dlv: wire.DrawDelivery(t)}
 		if rapid.Bool().Draw(t, "knownnet") {
 			c.Net = rapid.IntRange(1, 3).Draw(t, "net")
 		} else {
@@ -118,7 +125,7 @@ func c11dPFSweepRun(c c11dPFSweep, v *vlib.Verdict) {
 	shape := c11dPFShape(in)
 	v.Label(shape)
 	v.NonTrivial = shape != "consistent"
-	wire.DecoderCall(v, "portforwarding.readPacket", in, func(st *wire.Stream) { readPacket(st) })
+	wire.DecoderCallBoth(v, "portforwarding.readPacket", in, wire.DeliveryFor(wire.Hash64(in)), func(st *wire.Stream) { readPacket(st) })
 }
 
 func TestVerifC11DecReadPacketSweep(t *testing.T) {
